@@ -158,7 +158,7 @@ def main(tier):
     bld = maps_build()
     jobs = []
     if tier == 'quick':
-        kcfg = [(10, 2, 4, 3, 1), (10, 1, 3, 3, 1), (9, 2, 2, 3, 2), (8, 1, 1, 2, 1)]
+        kcfg = [(10, 2, 4, 3, 1), (10, 1, 3, 3, 1), (9, 2, 2, 3, 2), (8, 1, 1, 2, 1), (11, 2, 3, 4, 1), (9, 1, 4, 3, 1)]
         rows = lambda n, nb: [(0, 0), (nb - 1, n // 2), (nb - 1, n - 1)]
         fixed = [(w, 10, 2, it, 3) for w in ('rflin', 'rfsin', 'drift') for it in (4, 2)]
         fps = [(16, 2, ft, dt, 2 if dt == 3 else 4) for ft in (3, 1, 2, 0) for dt in (3, 4)]
